@@ -19,14 +19,17 @@
     read on the trial variables by [onehot]), the right side the model of
     RandomGen (keys, decoded candidates, acceptance).  Both sides equal
     [{q | valid_b (code_sem fb) q = true}] (C01_sound / C02_complete and
-    f1_accept_sound / f1_accept_complete).  Missing for the full statement:
-    derived factors, weights, preambles and several crossings on the RandomGen side
-    (outside frag1), complex windows / Nest / Sequential / LatinSquare on the
+    f1_accept_sound / f1_accept_complete).  [C07_sat_eq_random_frag2]: the same
+    with weighted crossed levels and a crossing weight ([frag2], for designs on
+    which the RandomGen model's enumerator is defined, see Properties/C05.v).
+    Missing for the full statement:
+    derived factors, preambles and several crossings on the RandomGen side
+    (outside frag2), complex windows / Nest / Sequential / LatinSquare on the
     SAT side (outside F1); there C07 is decided by the differential search. *)
 From Coq Require Import ZArith List Bool.
 From SP Require Import Base.Sat Design.Flat Design.Sem.
 From SP Require Import Encode.Compile Encode.CodeSem Encode.LayoutF1 Encode.F1Sem Encode.SatRandom.
-From SP Require Import Random.Enum Random.Frag Random.FragSem Random.SatRandom1 Random.Frag0Example.
+From SP Require Import Random.Enum Random.Frag Random.FragSem Random.SatRandom1 Random.SatRandom2 Random.Frag0Example.
 
 Theorem C07_sat_eq_random_partial :
   forall (fb : flat) (b : backend) (ok : bool) (n' : Z) (final : cnf),
@@ -51,3 +54,21 @@ Example C07_example_rejection :
   fl_errors_fail ex1_flat = false /\ (exists b, compile ex1_flat = COk b) /\
   length (keys_of ex1_flat) = 32%nat /\ length (accepted_keys ex1_flat) = 12%nat.
 Proof. exact sat_eq_random1_example. Qed.
+
+(** with weights (fragment [Frag.frag2]) *)
+Theorem C07_sat_eq_random_frag2 :
+  forall (fb : flat) (b : backend) (ok : bool) (n' : Z) (final : cnf),
+    in_f1 fb = true -> frag2 fb = true -> enumerates fb -> (0 < T fb)%nat -> fl_errors_fail fb = false ->
+    compile fb = COk b -> full_cnf b = (ok, n', final) ->
+    forall q : tseq,
+      (exists t, sat t final = true /\ onehot fb t q) <->
+      (exists k cand, In k (keys_of fb) /\ decode_key fb k = Some cand /\ accepts fb cand = true /\
+                      tseq_of_run fb cand = q).
+Proof. exact sat_eq_random2. Qed.
+Print Assumptions C07_sat_eq_random_frag2.
+
+Example C07_example_weighted :
+  in_f1 ex3_flat = true /\ frag2 ex3_flat = true /\ frag1 ex3_flat = false /\ enumerates ex3_flat /\ (0 < T ex3_flat)%nat /\
+  fl_errors_fail ex3_flat = false /\ (exists b, compile ex3_flat = COk b) /\
+  length (keys_of ex3_flat) = 96%nat /\ length (accepted_keys ex3_flat) = 32%nat.
+Proof. exact sat_eq_random2_example. Qed.
